@@ -126,28 +126,63 @@ func walkPending(fn *ssa.Function, start ssa.Instruction, cell *ssa.Alloc, T map
 	type key struct {
 		b, prev *ssa.BasicBlock
 		holds   bool
+		phis    string // which phis carry the pending error on the path being walked
 	}
 	seen := map[key]bool{}
+	var phiList []*ssa.Phi
+	allInstrs(fn, func(in ssa.Instruction) {
+		if ph, ok := in.(*ssa.Phi); ok {
+			phiList = append(phiList, ph)
+		}
+	})
+	phiSig := func() string {
+		var sb strings.Builder
+		for _, ph := range phiList {
+			if T[ph] {
+				sb.WriteString(ph.Name())
+				sb.WriteByte(',')
+			}
+		}
+		return sb.String()
+	}
 	var walk func(b, prev *ssa.BasicBlock, from int, holds bool)
 	walk = func(b, prev *ssa.BasicBlock, from int, holds bool) {
 		if from == 0 {
-			k := key{b, prev, holds}
+			// a phi carries the error exactly when the edge taken into the block does (per path, not once and for all)
+			if prev != nil {
+				for _, in := range b.Instrs {
+					ph, isPhi := in.(*ssa.Phi)
+					if !isPhi {
+						break
+					}
+					for k, pb := range b.Preds {
+						if pb == prev {
+							T[ph] = T[ph.Edges[k]]
+						}
+					}
+				}
+			}
+			k := key{b, prev, holds, phiSig()}
 			if seen[k] {
 				return
 			}
 			seen[k] = true
 		}
+		// the taint of phis is path state: restore it when this activation returns to its caller
+		saved := map[*ssa.Phi]bool{}
+		for _, ph := range phiList {
+			saved[ph] = T[ph]
+		}
+		defer func() {
+			for ph, v := range saved {
+				T[ph] = v
+			}
+		}()
 		for i := from; i < len(b.Instrs); i++ {
 			in := b.Instrs[i]
 			switch x := in.(type) {
 			case *ssa.Phi:
-				if prev != nil {
-					for k, pb := range b.Preds {
-						if pb == prev && T[x.Edges[k]] {
-							T[x] = true
-						}
-					}
-				}
+				// handled on entry
 			case *ssa.UnOp:
 				if x.Op == token.MUL && cell != nil && x.X == cell && holds {
 					T[x] = true
@@ -364,6 +399,21 @@ func ruleErrorsNotAbsorbed(c *Check, p *Program, rule string, fns []*ssa.Functio
 			if strings.HasPrefix(callee, "xxh32.") || callee == "fmt.Errorf" {
 				continue
 			}
+			// a peek at the persistent error latch that is only tested against nil: nothing is consumed, the
+			// latch keeps the error (it is handed out and cleared by Blocks.close, R05.7)
+			if f := staticCallee(ci); f != nil && latchPeek(f) {
+				onlyTested := true
+				for _, r := range *ev.Referrers() {
+					switch r.(type) {
+					case *ssa.BinOp, *ssa.DebugRef:
+					default:
+						onlyTested = false
+					}
+				}
+				if onlyTested {
+					continue
+				}
+			}
 			perCallee[callee]++
 			key := fmt.Sprintf("%s#err-of:%s", shortFn(fn), callee)
 			if perCallee[callee] > 1 {
@@ -545,4 +595,33 @@ func tupleNilTest(f *ssa.Function) (int, int) {
 		return -1, -1
 	}
 	return bi, ei
+}
+
+// latchPeek: a module function that only reads the error latch of the block pipeline: its error results
+// derive from Blocks.err, it stores nothing and calls nothing but the mutex.
+func latchPeek(f *ssa.Function) bool {
+	if !inModule(f) || len(f.Blocks) == 0 {
+		return false
+	}
+	found, pure := false, true
+	allInstrs(f, func(in ssa.Instruction) {
+		switch x := in.(type) {
+		case *ssa.Return:
+			for _, res := range x.Results {
+				if isErrorType(res.Type()) && (loadField(res) == "Blocks.err" || derivesFromField(res, "Blocks.err")) {
+					found = true
+				}
+			}
+		case *ssa.Store:
+			if _, isAl := x.Addr.(*ssa.Alloc); !isAl {
+				pure = false
+			}
+		case ssa.CallInstruction:
+			g := staticCallee(x)
+			if g == nil || g.Pkg == nil || g.Pkg.Pkg.Path() != "sync" {
+				pure = false
+			}
+		}
+	})
+	return found && pure
 }
